@@ -72,6 +72,12 @@ static Job make_task(int queue, int id, int work) {
     };
 }
 
+// during churn: a worker that is about to wait (it has checked the shutdown flag under the mutex) is held for a moment, so a
+// shutdown that does not synchronise with that check through the mutex loses its wake-up visibly
+static void churn_hook(int point, unsigned, unsigned, unsigned) {
+    if (point == 2) std::this_thread::sleep_for(std::chrono::microseconds(30));
+}
+
 static void run_script(const std::vector<std::string>& lines) {
     std::unique_ptr<Dispatcher> disp;
     std::vector<Queue> queues;
@@ -109,11 +115,12 @@ static void run_script(const std::vector<std::string>& lines) {
         }
         else if (op == "churn") { // churn <count> <workers>: dispatchers destroyed while their workers are still busy or starting
             int count; unsigned w; in >> count >> w;
-            auto* saved = mustache_verif_sched; mustache_verif_sched = nullptr;      // not part of the recorded trace
+            auto* saved = mustache_verif_sched; mustache_verif_sched = &churn_hook;      // not part of the recorded trace
             std::atomic<int> ran{0};
             for (int i = 0; i < count; ++i) {
                 auto dsp = std::make_unique<Dispatcher>(w);
-                for (unsigned k = 0; k < w; ++k) dsp->addParallelTask([&ran, k](ThreadId) { volatile int x = 0; for (unsigned j = 0; j < 200 + 97 * k; ++j) x += j; ran++; });
+                // trial i gives the first (i mod (w+1)) workers one short task of staggered length: workers are idle, starting, running or just done
+                for (unsigned k = 0; k < unsigned(i) % (w + 1); ++k) dsp->addParallelTask([&ran, k, i](ThreadId) { volatile int x = 0; for (unsigned j = 0; j < 50 + 97 * k + 13 * (unsigned(i) % 23); ++j) x += j; ran++; });
                 alarm(10);        // a destructor that never returns ends the script with SIGALRM
                 dsp.reset();
                 alarm(0);
